@@ -100,10 +100,20 @@ def extension_roundtrip():
     sym.check("values_preserved", ok)
     sym.check("reserializes_to_same_document", deep_eq(_reqs_normalised(dump(e2._to_serial())), _reqs_normalised(dump(e._to_serial()))))
     # definitions added AFTER an extension has been serialised once are part of the next serialisation
+    # definitions added after a first serialisation, one kind at a time (a serialisation between each)
     e.add_extension_value(ext.ExtensionValue("late", val.FALSE))
+    d_late = dump(e._to_serial())
+    ok_late = "late" in d_late["values"]
     e.add_type_def(ext.TypeDef("LateT", "late", [], ext.ExplicitBound(TypeBound.Copyable)))
     d_late = dump(e._to_serial())
-    sym.check("later_definitions_are_serialised", "late" in d_late["values"] and "LateT" in d_late["types"])
+    ok_late = ok_late and "LateT" in d_late["types"] and "late" in d_late["values"]
+    e.add_op_def(ext.OpDef("LateOp", ext.OpDefSig(tys.FunctionType([B], [B])), "late"))
+    d_late = dump(e._to_serial())
+    ok_late = ok_late and "LateOp" in d_late["operations"]
+    e.add_extension_value(ext.ExtensionValue("late", val.TRUE))  # redefinition
+    d_late = dump(e._to_serial())
+    ok_late = ok_late and d_late["values"]["late"] == dump(ext.ExtensionValue("late", val.TRUE)._to_serial())
+    sym.check("later_definitions_are_serialised", ok_late)
     for k, o2 in e2.operations.items():
         if o2.signature.poly_func is not None:
             sym.check("decoded_op_def_requires_its_extension", e2.name in o2.signature.poly_func.body.runtime_reqs)
